@@ -24,7 +24,7 @@ run() { # <label> <prop> <patch>
   cp -r "$base/in/." "$v/"; mkdir -p "$v/evidence" "$v/replays"
   if ! (cd "$r" && git apply --check "$patch" 2>/dev/null || patch -p1 --dry-run -s < "$patch" >/dev/null 2>&1); then echo "SKIP   $label ($prop): patch does not apply"; return; fi
   (cd "$r" && (git apply "$patch" 2>/dev/null || patch -p1 -s < "$patch"))
-  out=$("$base/govc" check "$prop" -repo "$r" -verif "$v" 2>&1); rc=$?
+  out=$(VERIF_TIMEOUT=${SELFTEST_TIMEOUT:-40} VERIF_NOSECOND=1 "$base/govc" check "$prop" -repo "$r" -verif "$v" 2>&1); rc=$?
   n=$(echo "$out" | grep '^VIOLATION' | grep -vc -- '-engine.txt')   # an engine error (check could not run) is not a detection
   if [ $rc -eq 1 ] && [ "$n" -gt 0 ]; then
     echo "CAUGHT $label ($prop): $n violations; first: $(echo "$out" | grep '^VIOLATION' | head -1 | sed 's/.*obligation=//')"
